@@ -125,12 +125,17 @@ def check_chain(ctx, ch):
         if pc.kind_of(r2) == "sum":
             rs = r2.simplify()
             fresh = pc.operand_real(c2["res"], 1)
-            if not is_simplified(rs):
-                out.append(("chain:simplify", "%s = %r: simplify() returns %r, which still has duplicate or ~0 terms" % (desc, r2, rs)))
-            elif not close(pc.dense_real(rs, nq), want, 1e-8):
+            eq_ok = bool(rs == fresh) and bool(fresh == rs)
+            if not close(pc.dense_real(rs, nq), want, 1e-8):
                 out.append(("chain:simplify:matrix", "%s: simplify() changed the denoted matrix" % desc))
-            elif is_simplified(fresh) and not (rs == fresh and fresh == rs):
-                out.append(("chain:eq", "%s: simplified result %r and the freshly built %r denote the same matrix but do not compare equal" % (desc, rs, fresh)))
+            elif is_simplified(fresh) and not eq_ok:
+                # the statement: equality between simplified operators coincides with equality of the denoted matrices
+                if not is_simplified(rs):
+                    out.append(("chain:simplify", "%s = %r: simplify() returns %r, which still has duplicate or ~0 terms and does not compare equal to the freshly built %r with the same matrix" % (desc, r2, rs, fresh)))
+                else:
+                    out.append(("chain:eq", "%s: simplified result %r and the freshly built %r denote the same matrix but do not compare equal" % (desc, rs, fresh)))
+            elif not is_simplified(rs):
+                ctx.spec_drift("simplify() keeps duplicate or ~0 terms, equality ignores them")
     return out
 
 
